@@ -84,6 +84,192 @@ func leanBool(s string) string {
 	return s
 }
 
+
+// ---- Felix's consumers of the two booleans ------------------------------------------------
+
+var atomMap = map[string]string{
+	"m.dpConfig.ProgramIPIPClusterRoutes": "e.progIPIP", "config.ProgramIPIPClusterRoutes": "e.progIPIP", "conf.ProgramIPIPClusterRoutes()": "e.progIPIP",
+	"config.ProgramNoEncapClusterRoutes": "e.progNoEncap",
+	"config.NoEncapNeeded":               "e.noEncapNeeded", "conf.Encapsulation.NoEncapNeeded": "e.noEncapNeeded",
+	"conf.Encapsulation.IPIPEnabled": "e.ipipEnabled", "config.RulesConfig.IPIPEnabled": "e.ipipEnabled",
+	"conf.Encapsulation.VXLANEnabled": "e.vxlanEnabled", "config.RulesConfig.VXLANEnabled": "e.vxlanEnabled",
+	"conf.Encapsulation.VXLANEnabledV6": "e.vxlanEnabledV6", "conf.BPFEnabled": "e.bpf",
+	"conf.WireguardEnabled": "e.wg", "conf.WireguardEnabledV6": "e.wg6",
+}
+
+// leanCond turns a Go boolean expression over known atoms into a Lean Bool expression over `e : FelixEnv`.
+func leanCond(e ast.Expr) string {
+	switch x := e.(type) {
+	case *ast.ParenExpr:
+		return "(" + leanCond(x.X) + ")"
+	case *ast.UnaryExpr:
+		if x.Op == token.NOT {
+			return "(!" + leanCond(x.X) + ")"
+		}
+	case *ast.BinaryExpr:
+		if x.Op == token.LAND {
+			return "(" + leanCond(x.X) + " && " + leanCond(x.Y) + ")"
+		}
+		if x.Op == token.LOR {
+			return "(" + leanCond(x.X) + " || " + leanCond(x.Y) + ")"
+		}
+	}
+	if a, ok := atomMap[str(e)]; ok {
+		return a
+	}
+	return "?unknown<" + str(e) + ">"
+}
+
+func known(g, where string) string {
+	if strings.Contains(g, "?unknown") {
+		die("%s: guard condition mentions something the model does not know: %s", where, g)
+	}
+	return g
+}
+
+// guardsOf returns, for every call whose callee prints as one of `callees` inside fn, the conjunction of
+// the enclosing if-conditions (else branches negated) as a Lean expression.
+func guardsOf(fn *ast.FuncDecl, callees map[string]bool) []string {
+	var out []string
+	var walk func(n ast.Node, conds []string)
+	walk = func(n ast.Node, conds []string) {
+		if n == nil {
+			return
+		}
+		switch x := n.(type) {
+		case *ast.IfStmt:
+			if x.Init != nil {
+				walk(x.Init, conds)
+			}
+			hasCall := false
+			ast.Inspect(x, func(y ast.Node) bool {
+				if c, ok := y.(*ast.CallExpr); ok && callees[str(c.Fun)] {
+					hasCall = true
+				}
+				return true
+			})
+			if !hasCall {
+				return
+			}
+			c := leanCond(x.Cond)
+			walk(x.Body, append(append([]string{}, conds...), c))
+			if x.Else != nil {
+				walk(x.Else, append(append([]string{}, conds...), "(!"+c+")"))
+			}
+			return
+		case *ast.CallExpr:
+			if callees[str(x.Fun)] {
+				g := "true"
+				if len(conds) > 0 {
+					g = strings.Join(conds, " && ")
+				}
+				out = append(out, g)
+			}
+		case *ast.FuncLit:
+			return
+		}
+		// generic descent
+		ast.Inspect(n, func(y ast.Node) bool {
+			if y == n || y == nil {
+				return true
+			}
+			walk(y, conds)
+			return false
+		})
+	}
+	walk(fn.Body, nil)
+	return out
+}
+
+func allFuncs(f *ast.File) []*ast.FuncDecl {
+	var o []*ast.FuncDecl
+	for _, d := range f.Decls {
+		if fd, ok := d.(*ast.FuncDecl); ok && fd.Body != nil {
+			o = append(o, fd)
+		}
+	}
+	return o
+}
+
+func felixConsumers(repo string) string {
+	// ipip_mgr.go: every use of the route manager that programs routes is guarded by ProgramIPIPClusterRoutes
+	im := parse(repo, "felix/dataplane/linux/ipip_mgr.go")
+	callees := map[string]bool{"m.routeMgr.OnUpdate": true, "m.routeMgr.triggerRouteUpdate": true, "m.routeMgr.CompleteDeferredWork": true}
+	var ipipRoutes []string
+	for _, fd := range allFuncs(im) {
+		ipipRoutes = append(ipipRoutes, guardsOf(fd, callees)...)
+	}
+	if len(ipipRoutes) < 3 {
+		die("ipip_mgr.go: expected the three route-manager calls (OnUpdate, triggerRouteUpdate, CompleteDeferredWork), found %d", len(ipipRoutes))
+	}
+	for _, g := range ipipRoutes {
+		if known(g, "ipip_mgr.go") != ipipRoutes[0] {
+			die("ipip_mgr.go: route-manager calls are guarded differently: %v", ipipRoutes)
+		}
+	}
+	// int_dataplane.go: which condition starts which manager
+	idp := parse(repo, "felix/dataplane/linux/int_dataplane.go")
+	first := func(callee string) string {
+		for _, fd := range allFuncs(idp) {
+			if g := guardsOf(fd, map[string]bool{callee: true}); len(g) > 0 {
+				return g[0]
+			}
+		}
+		die("int_dataplane.go: no call of %s", callee)
+		return ""
+	}
+	noEncapMgr, vxlanMgr, ipipMgr := known(first("newNoEncapManager"), "newNoEncapManager"), known(first("newVXLANManager"), "newVXLANManager"), known(first("newIPIPManager"), "newIPIPManager")
+	// calc_graph.go: the gate of the L3 route resolver
+	cg := parse(repo, "felix/calc/calc_graph.go")
+	resolver := ""
+	for _, fd := range allFuncs(cg) {
+		ast.Inspect(fd, func(n ast.Node) bool {
+			if is, ok := n.(*ast.IfStmt); ok && strings.Contains(str(is.Cond), "conf.Encapsulation.NoEncapNeeded") && strings.Contains(str(is.Body), "NewL3RouteResolver") {
+				resolver = known(leanCond(is.Cond), "L3 route resolver gate")
+			}
+			return true
+		})
+	}
+	if resolver == "" {
+		die("calc_graph.go: gate of the L3 route resolver not found")
+	}
+	// shape checks: NoEncapNeeded, pool classification, plumbing
+	er := parse(repo, "felix/calc/encapsulation_resolver.go")
+	if got := str(funcDecl(er, "NoEncapNeeded").Body); got != "{ if c.config == nil || !c.config.ProgramNoEncapClusterRoutes() { return false } return len(c.noEncapPools) > 0 }" {
+		die("EncapsulationCalculator.NoEncapNeeded changed: %s", got)
+	}
+	up := str(funcDecl(er, "updatePool").Body)
+	for _, frag := range []string{"if ipipEnabled { c.ipipPools[cidr] = struct{}{} } else { delete(c.ipipPools, cidr) }", "if !ipipEnabled && !vxlanEnabled { c.noEncapPools[cidr] = struct{}{} } else { delete(c.noEncapPools, cidr) }"} {
+		if !strings.Contains(up, frag) {
+			die("EncapsulationCalculator.updatePool lost %q", frag)
+		}
+	}
+	for _, fn := range []string{"IPIPEnabled", "VXLANEnabled"} {
+		b := str(funcDecl(er, fn).Body)
+		if !strings.Contains(b, "return len(c.") {
+			die("EncapsulationCalculator.%s changed: %s", fn, b)
+		}
+	}
+	drv, err := os.ReadFile(filepath.Join(repo, "felix/dataplane/driver.go"))
+	if err != nil {
+		die("driver.go: %v", err)
+	}
+	dn := strings.Join(strings.Fields(string(drv)), " ")
+	for _, frag := range []string{"ProgramIPIPClusterRoutes: configParams.ProgramIPIPClusterRoutes(),", "ProgramNoEncapClusterRoutes: configParams.ProgramNoEncapClusterRoutes(),", "NoEncapNeeded: configParams.Encapsulation.NoEncapNeeded,"} {
+		if !strings.Contains(dn, frag) {
+			die("driver.go no longer plumbs %q", frag)
+		}
+	}
+	dm, err := os.ReadFile(filepath.Join(repo, "felix/daemon/daemon.go"))
+	if err != nil || !strings.Contains(string(dm), "configParams.Encapsulation.NoEncapNeeded = encapCalculator.NoEncapNeeded()") {
+		die("daemon.go no longer sets Encapsulation.NoEncapNeeded from the EncapsulationCalculator")
+	}
+	var b strings.Builder
+	b.WriteString("/-- Guards of Felix's consumers of the two booleans: ipip_mgr.go route-manager calls, and the conditions under\nwhich int_dataplane.go starts the noEncap / VXLAN / IPIP managers; gate of the L3 route resolver (calc_graph.go). -/\n")
+	fmt.Fprintf(&b, "def guards : FelixGuards :=\n  { ipipMgr := fun e => %s,\n    ipipRoutes := fun e => %s,\n    noEncapMgr := fun e => %s,\n    vxlanMgr := fun e => %s,\n    resolver := fun e => %s }\n\n", ipipMgr, ipipRoutes[0], noEncapMgr, vxlanMgr, resolver)
+	return b.String()
+}
+
 var policyLit = regexp.MustCompile(`^clusterRoutePolicy\{ipip: (true|false), noEncap: (true|false)\}$`)
 
 func main() {
@@ -309,7 +495,9 @@ func main() {
 		}
 		fmt.Fprintf(&b, "  (%s, %s)%s  -- %s / %s\n", leanStr(p[0]), leanStr(p[1]), sep, p[0], p[1])
 	}
-	b.WriteString("]\n\nend CalicoVerif.C28.Gen\n")
+	b.WriteString("]\n\n")
+	b.WriteString(felixConsumers(repo))
+	b.WriteString("end CalicoVerif.C28.Gen\n")
 	if err := os.WriteFile(out, []byte(b.String()), 0o644); err != nil {
 		die("write: %v", err)
 	}
